@@ -76,6 +76,8 @@ pub struct ReadPhase {
 pub enum Edit {
     /// put cell code on square
     Square(u8, u8),
+    /// move whatever stands on the first square to the second (overwriting it)
+    MoveMan(u8, u8),
     Side,
     /// toggle castling right index 0..4 (WQ WK BQ BK)
     Castling(u8),
@@ -470,6 +472,7 @@ impl Edit {
     fn encode(&self) -> String {
         match self {
             Edit::Square(s, c) => format!("sq {} {}", s, c),
+            Edit::MoveMan(a, b) => format!("move {} {}", a, b),
             Edit::Side => "side".into(),
             Edit::Castling(i) => format!("castling {}", i),
             Edit::Ep(f) => format!("ep {}", f),
@@ -480,6 +483,7 @@ impl Edit {
     fn decode(t: &[&str]) -> Option<Edit> {
         Some(match *t.first()? {
             "sq" => Edit::Square(t.get(1)?.parse().ok()?, t.get(2)?.parse().ok()?),
+            "move" => Edit::MoveMan(t.get(1)?.parse().ok()?, t.get(2)?.parse().ok()?),
             "side" => Edit::Side,
             "castling" => Edit::Castling(t.get(1)?.parse().ok()?),
             "ep" => Edit::Ep(t.get(1)?.parse().ok()?),
